@@ -236,6 +236,8 @@ def _budgeted_grt(self, graph):
 
 def install():
     SUB.asyncio = FakeAsyncio
+    import pydra.engine.job as JOB
+    JOB.asyncio = FakeAsyncio          # PydraFileLock.__aenter__ sleeps between its attempts to take a held lock
     SUB.Submitter.get_runnable_tasks = _budgeted_grt
 
 
